@@ -37,6 +37,9 @@ def run(ctx):
            timeout=tmo, desc='BoundRoute.match_method on symbolic method text over {G g E e T t P x}: case-insensitive membership (set lookup realises the text, so the alphabet bounds the enumeration)'),
         Ob('add_history', 'ob_add_history', '', packed=[('warm', 2, 'bool'), ('i0', 5), ('i1', 5), ('patt0', 3), ('patt1', 3)], cells=[('warm%d_i%d' % (w, i), [{'warm': w, 'i0': i}]) for w in range(2) for i in range(5)], timeout=tmo, confirm='confirm_add_history',
            desc='a table built by the constructor and two add(entry, index) calls (index None/0/1/2/beyond) interleaved with requests: every request is answered by the first matching route of the CURRENT list'),
+        Ob('canned_errors', 'ob_canned', '', packed=[('r0', 5), ('r1', 5), ('r2', 5), ('r3', 5)], cells=[('r%d' % i, [{'r0': i}]) for i in range(5)], timeout=tmo, confirm='confirm_canned',
+           desc='real applications of 4 routes over {no match, returns canned error A, raises canned error B, fresh non-breaking error, answers}: error OBJECTS that live across '
+                'requests and are produced by several routes - the response is the most recent non-breaking error, twice in a row'),
         Ob('method_norm', 'ob_method_norm', 'a: int, b: int, dup: bool', pre=['0 <= a <= 10', '0 <= b <= 10'], timeout=tmo,
            desc='Route(methods=[..]) normalisation: upper-cased, GET implies HEAD, unknown -> InvalidMethod'),
     ]
